@@ -16,7 +16,7 @@ TITLE = '2-D group analysis equals per-signal analysis, in order'
 REGISTER = True
 TECHNIQUE = ('Hypothesis property-based testing with harness-injected worker delays: one-vs-many differential - result i of '
              'compute_features_2d(axis=0) / BycycleGroup.fit must be bit-identical to compute_features on row i alone with row i\'s '
-             'options - over shared / per-row option lists, n_jobs, progress, array dtype / memory layout, repeated fits of one object, and perturbed worker completion orders; the per-row references are computed in freshly forked processes so that per-process state cannot poison reference and subject alike')
+             'options - over shared / per-row option lists, n_jobs, progress, array dtype / memory layout, repeated fits of one object, and perturbed worker completion orders; the per-row references are computed in freshly forked processes so that per-process state cannot poison reference and subject alike; the same differential with spawn / forkserver workers and on one array of more than 64 MiB')
 LEVEL_TEXT = ('Generated-input search (320 pool runs quick, 6k thorough) over 1-6 pairwise different rows (up to 12 rows with n_jobs=1, '
               'where batching would matter), option dict / per-row lists (own centring, method, thresholds per row), n_jobs in '
               '{1, 2, rows, rows+3, -1}, progress None/"tqdm", return_samples (also contradicted inside the option dict) and per-row '
